@@ -26,7 +26,12 @@ def oracle(ctx):
     b['failures'] = [f for f in b['failures'] if f.get('signature') != 'fixedstruct:nul-after-each-record']
     ctx._extra_corr = corr
     c = text_oracles.oracle_window_yearless(ctx, ctx.q(9, 60))
-    return core.merge_oracles([a, b, c])
+    # every accounting layout (16) through the real FixedStructReader under windows on / 1 microsecond beside record instants (seeded change C03-d:
+    # one layout's microseconds dropped from the window key)
+    d = core.harness_oracle(ctx, 'fixedfile', ctx.q(480, 6400),
+                            'fixedfile: per layout (16) files of 2-13 records; two of three under a window whose bounds are record instants (seconds and microseconds) or 1 microsecond beside: '
+                            'the selection must be exactly the non-null records with A <= t <= B, in stable time order')
+    return core.merge_oracles([a, b, c, d])
 
 
 def check(ctx):
